@@ -6,6 +6,7 @@ package compiler
 
 import (
 	"reflect"
+	"slices"
 
 	"github.com/open2b/scriggo/ast"
 	"github.com/open2b/scriggo/internal/runtime"
@@ -656,7 +657,13 @@ func (em *emitter) emitImport(node *ast.Import, isTemplate bool) []*runtime.Func
 
 	if !blankImport {
 		// Make available the imported functions.
+		inFor := func(name string) bool {
+			return len(node.For) == 0 || slices.ContainsFunc(node.For, func(id *ast.Identifier) bool { return id.Name == name })
+		}
 		for name, fn := range funcs {
+			if !inFor(name) {
+				continue
+			}
 			if importName != "" {
 				name = importName + "." + name
 			}
@@ -665,6 +672,9 @@ func (em *emitter) emitImport(node *ast.Import, isTemplate bool) []*runtime.Func
 
 		// Add the imported variables.
 		for name, v := range vars {
+			if !inFor(name) {
+				continue
+			}
 			if importName != "" {
 				name = importName + "." + name
 			}
